@@ -1,1 +1,58 @@
-(* C13 -- theorems to be stated here. *)
+(* C13 -- bad lengths are rejected without side effects; no operation panics.
+   The model's results are [Ok _ | Err | Panic]; an Err carries no new memory or state, so "rejected
+   without side effects" is the statement "= Err"; every usize subtraction, slice, unwrap of the
+   transcribed bodies is a partial primitive that yields Panic where Rust would panic.
+   PARTIAL: panic-freedom of the twelve cts bodies for every L >= block size is part of C05
+   (Props/C05.v states what is proved there); key/IV slice-length gates and the unequal-length gates
+   of the *_b2b helpers live in the interpreter (Interp.step) and are tied to the code by the
+   correspondence runs of gen/props/c13.py only. *)
+From BM Require Import BlockModes Plumbing Toy Ints Ctr Belt Stream Cts Stream_proofs Interp Wrapper_proofs Wrapper_inst Gates_proofs.
+From Coq Require Import ZArith.
+
+(* ciphertext stealing: shorter than one block is an error, for all six variants, both directions *)
+Theorem C13_cts_short : forall C v enc iv m, mlen m < c_bs C -> cts_run C v enc iv m = Err.
+Proof. exact cts_short_is_err. Qed.
+Print Assumptions C13_cts_short.
+
+(* padded encryption: message longer than the buffer, or no room for the padding block, or NoPadding
+   on a partial block; padded decryption: length not a multiple of the block size, or output too short *)
+Theorem C13_padded_gates : forall (S : Type) (mbs : nat) (single : S -> cell -> S * cell)
+    (blocks : S -> list cell -> S * list cell), 0 < mbs -> forall P st (al : bool) (inb outb buf : list N) msg_len,
+  (length buf < msg_len -> enc_padded_ip mbs single blocks P st buf msg_len = Err) /\
+  (length outb < length inb -> enc_padded_b2b mbs single blocks P st inb outb = Err) /\
+  (length outb < mbs * (length inb / mbs) + mbs -> enc_padded_inout mbs single blocks Pkcs7 st al inb outb = Err) /\
+  (length inb mod mbs <> 0 -> enc_padded_inout mbs single blocks NoPadding st al inb outb = Err) /\
+  (length inb mod mbs <> 0 -> dec_padded_inout mbs blocks P st al inb outb = Err) /\
+  (length outb < length inb -> dec_padded_b2b mbs blocks P st inb outb = Err).
+Proof.
+  intros S mbs single blocks Hm P st al inb outb buf msg_len. repeat split.
+  - apply enc_padded_ip_gate. - apply enc_padded_b2b_gate. - apply enc_padded_pkcs7_room.
+  - now apply enc_padded_nopad_partial. - now apply dec_padded_not_multiple. - apply dec_padded_b2b_short.
+Qed.
+Print Assumptions C13_padded_gates.
+
+(* buffered CFB: from every exported state (pos <= bs, |iv| = bs) any input length is accepted *)
+Theorem C13_buffered_cfb_no_panic : forall (C : cipher) set1 iv pos data, pos <= c_bs C -> length iv = c_bs C ->
+  exists st' out, buf_apply C set1 (iv, pos) data = Ok (st', out).
+Proof. exact buf_apply_no_panic. Qed.
+Print Assumptions C13_buffered_cfb_no_panic.
+
+(* keystream ciphers: a request either succeeds or is an error -- never a panic -- at any position *)
+Theorem C13_ctr_apply_total : forall cs be (C : cipher) (nonce : list N), cipher_wf C -> c_bs C = cs * length nonce ->
+  forall nb wst (al : bool) (inb outb : list N), CtrInv cs be C nonce nb wst ->
+  length inb = length outb -> (al = true -> inb = outb) -> (N.of_nat (length outb) <= usize_max)%N ->
+  try_apply (kscore C (SCtr cs be)) wst al inb outb <> Panic.
+Proof.
+  intros cs be C nonce Hw Hb nb wst al inb outb HI Hl Ha Hu.
+  destruct (ctr_apply_spec cs be C nonce Hw Hb nb wst al inb outb HI Hl Ha Hu) as [Hs He].
+  destruct (fits_dec (kscore C (SCtr cs be)) (ctr_limit cs) nb (wr_pos wst) (length outb)) as [Hf|Hf].
+  - destruct (Hs Hf) as (w' & E & _). rewrite E. discriminate.
+  - rewrite (He Hf). discriminate.
+Qed.
+Print Assumptions C13_ctr_apply_total.
+
+(* seeks to non-negative targets and position queries never panic (block sizes are at most 255) *)
+Theorem C13_seek_pos_no_panic : forall t bits p bs blk byte, 0 < bs -> bs < 256 -> (0 <= p)%Z ->
+  into_block_byte t bits p bs <> Panic /\ from_block_byte t blk byte bs <> Panic.
+Proof. intros. split; [now apply into_block_byte_no_panic | apply from_block_byte_no_panic]. Qed.
+Print Assumptions C13_seek_pos_no_panic.
